@@ -247,7 +247,7 @@ class Unit:
            ctx_ok_or=(), external_body=False, props=None, safety_props=None, which=0,
            canary=False, rename=None, mode_exec=True, opens_invariants=None, no_unwind=False,
            sig_rewrites=(), header_attrs=(), assume_termination=False, container=None, bare=False,
-           no_body=False, ctx_sites=()):
+           no_body=False, ctx_sites=(), impl_which=0):
         """cut a function from /repo and splice a contract in.
 
         key: 'Type::name' or 'name'.  impl: regex of the impl header type (default = Type from key).
@@ -267,7 +267,7 @@ class Unit:
             bare = True
         elif '::' in key:
             ty = key.split('::')[0]
-            r = s.cut_item('impl', impl or re.escape(ty))
+            r = s.cut_item('impl', impl or re.escape(ty), which=impl_which)
             within = (r['open'] + 1, r['close'])
             if impl_header is None:
                 impl_header = re.sub(r'\s+', ' ', r['header']).strip()
@@ -308,7 +308,7 @@ class Unit:
         # ---- contract text
         fnkey = key
         info = dict(file=relpath, start_line=sig_start_line, end_line=f['end_line'], props=props,
-                    safety_props=list(safety_props) if safety_props is not None else sorted(set(props + ['C16'])),
+                    safety_props=list(safety_props) if safety_props is not None else (sorted(set(props + ['C16'])) if props else []),
                     clauses=[], external_body=(external_body or no_body), loops=0, name=rename or name)
         self.fns[fnkey] = info
 
